@@ -11,7 +11,49 @@ var (
 	reJump            = regexp.MustCompile(`\b(break|continue|return|throw)\b`)
 	reLexical         = regexp.MustCompile(`\b(let|const|class|function)\b`)
 	reReturnUndefined = regexp.MustCompile(`\breturn\s*\(?\s*(undefined|void 0)\b`)
+	reFoldedString    = regexp.MustCompile(`[{;]\s*\(*\s*(["'][^"'\\\n]*["']\s*\+\s*["'][^"'\\\n]*["']|[01]\s*\?\s*["'][^"'\\\n]*["']\s*:\s*[^;]*)\s*\)*\s*;`)
+	reProtoSameName   = regexp.MustCompile(`__proto__(\s|/\*.*?\*/|//[^\n]*\n)*:(\s|/\*.*?\*/|//[^\n]*\n)*__proto__`)
 )
+
+// deepOptionalGroupMember reports a parenthesised optional chain whose optional link is not the last one, followed
+// by a plain member access: (a?.b.c).d
+func deepOptionalGroupMember(src string) bool {
+	for i := 0; i+1 < len(src); i++ {
+		if src[i] != '?' || src[i+1] != '.' {
+			continue
+		}
+		depth, more := 0, false
+	scan:
+		for j := i + 2; j < len(src); j++ {
+			switch src[j] {
+			case '(', '[', '{':
+				if depth == 0 {
+					more = true
+				}
+				depth++
+			case ']', '}':
+				depth--
+				if depth < 0 {
+					break scan
+				}
+			case '.':
+				if depth == 0 && j > i+2 {
+					more = true
+				}
+			case ')':
+				if depth == 0 {
+					rest := strings.TrimLeft(src[j+1:], " \t\n")
+					if more && strings.HasPrefix(rest, ".") && !strings.HasPrefix(rest, "..") {
+						return true
+					}
+					break scan
+				}
+				depth--
+			}
+		}
+	}
+	return false
+}
 
 // matchKnown ties a failing case to a listed known finding by its syntactic
 // trigger (never by property alone), so that other violations still surface.
@@ -37,6 +79,18 @@ func matchKnown(c Case, res result, err error) string {
 	// C01-return-comma-undefined: a function ending in `return undefined`/`return void 0` after >= 2 expression statements
 	if reReturnUndefined.MatchString(c.Src) && strings.HasPrefix(err.Error(), "behaviour differs") {
 		return "C01-return-comma-undefined"
+	}
+	// C01-folded-string-becomes-directive: a statement that is a concatenation of strings only, or a conditional on a constant
+	if reFoldedString.MatchString(c.Src) && (strings.HasPrefix(err.Error(), "behaviour differs") || strings.Contains(err.Error(), "'use strict' directive")) {
+		return "C01-folded-string-becomes-directive"
+	}
+	// C01-proto-shorthand: an explicit __proto__:__proto__ entry
+	if reProtoSameName.MatchString(c.Src) && strings.HasPrefix(err.Error(), "behaviour differs") {
+		return "C01-proto-shorthand"
+	}
+	// C01-optional-chain-group-member-deep: (a?.b.c).d, the input throws where the output does not
+	if deepOptionalGroupMember(c.Src) && strings.HasPrefix(err.Error(), "behaviour differs") && strings.Contains(err.Error(), "TypeError") {
+		return "C01-optional-chain-group-member-deep"
 	}
 	return ""
 }
